@@ -83,7 +83,7 @@ theorem expLengthFieldCodec_sem (c : LFCfg) (env : Env) (he : LFEnv c env) (hm :
     (run expLengthFieldCodec env).isSome = c.valid := by
   obtain ⟨h1, h2, h3, h4, h5⟩ := he
   unfold I64 at hm hf
-  simp only [expLengthFieldCodec, run_assert, run_nil, GE.eval, binOp_sub, binOp_lt, binOp_gt, binOp_le, binOp_ne, binOp_and, b2i_ne_zero, h1, h2, h3, h4, h5, LFCfg.valid]
+  simp only [expLengthFieldCodec, run_assert, run_nil, GE.eval, binOp_sub, binOp_lt, binOp_gt, binOp_le, binOp_ne, binOp_and, b2i_ne_zero, h1, h2, h3, h5, LFCfg.valid]
   by_cases a1 : c.max ≤ 0
   · have : ¬ (0 < c.max) := by omega
     simp [a1, this]
